@@ -29,6 +29,7 @@ from dask.dataframe.core import (
     has_parallel_type,
     is_arraylike,
     is_dataframe_like,
+    is_index_like,
     is_series_like,
     meta_warning,
     new_dd_object,
@@ -404,7 +405,11 @@ class FrameBase(DaskMethodsMixin):
                 return self.iloc[other]
             else:
                 return self.loc[other]
-        if isinstance(other, np.ndarray) or is_series_like(other):
+        if (
+            isinstance(other, np.ndarray)
+            or is_series_like(other)
+            or is_index_like(other)
+        ):
             other = list(other)
         elif isinstance(other, list):
             other = other.copy()
